@@ -3,9 +3,9 @@ from __future__ import annotations
 
 import ast
 
-from .gen import (EXTRA, Kernel, Untranslatable, all_stmts, assign_value, find_assign, find_for,
+from ..gen import (EXTRA, Kernel, Untranslatable, all_stmts, assign_value, find_assign, find_for,
                   guard_condition, register, straightline)
-from .pyexpr import ExprTr, emit_def, translate_block
+from ..pyexpr import ExprTr, emit_def, translate_block
 
 T = "direct/data/transforms.py"
 CROP = ("DirectVerif.Model.Crop",)
@@ -93,7 +93,7 @@ register("C10", [
 
 
 def _c10_extra():
-    from .gen import REPO, find_function, parse_file
+    from ..gen import REPO, find_function, parse_file
 
     k = Kernel("pad_tensor_pad_list", T, "pad_tensor", [], "")
     try:
@@ -105,21 +105,3 @@ def _c10_extra():
 
 EXTRA["C10"] = _c10_extra
 
-# =================================================================================================
-# C01 (shift arithmetic)
-register("C01", [
-    Kernel("fftshift_amount", T, "fftshift", ["n"], "Shift.fftshiftAmount",
-           assign_value({"data.shape[dim_num]": "n"}, "shift[idx]"), imports=SHIFT),
-    Kernel("ifftshift_amount", T, "ifftshift", ["n"], "Shift.ifftshiftAmount",
-           assign_value({"data.shape[dim_num]": "n"}, "shift[i]"), imports=SHIFT),
-    Kernel("roll_one_dim_shift", T, "roll_one_dim", ["shift", "n"], "(fun shift n => Int.fmod shift n)",
-           straightline({"shift": "shift", "data.size(dim)": "n"}, "shift"), imports=SHIFT),
-    Kernel("roll_left_start", T, "roll_one_dim", ["shift", "n"], "(fun _ _ => 0)",
-           assign_value({"shift": "shift", "data.size(dim)": "n"}, "left", arg=1), imports=SHIFT),
-    Kernel("roll_left_len", T, "roll_one_dim", ["shift", "n"], "(fun shift n => n - shift)",
-           assign_value({"shift": "shift", "data.size(dim)": "n"}, "left", arg=2), imports=SHIFT),
-    Kernel("roll_right_start", T, "roll_one_dim", ["shift", "n"], "(fun shift n => n - shift)",
-           assign_value({"shift": "shift", "data.size(dim)": "n"}, "right", arg=1), imports=SHIFT),
-    Kernel("roll_right_len", T, "roll_one_dim", ["shift", "n"], "(fun shift _ => shift)",
-           assign_value({"shift": "shift", "data.size(dim)": "n"}, "right", arg=2), imports=SHIFT),
-])
